@@ -4,9 +4,11 @@ package cluster
 
 // Accessors injected by the verification harness through `go build -overlay` (never committed to the repository).
 
-// XVNewVV builds a vector holding exactly the given entries (explicit zeros included).
+// XVNewVV builds a vector holding exactly the given entries (explicit zeros included). It goes through the
+// package's own constructor and writes only the counter map m (the state anchored by the property): no other
+// private field is named, so the accessor keeps compiling when cache / hint fields are added or removed.
 func XVNewVV(m map[string]uint64) VersionVector {
-	out := VersionVector{m: make(map[string]uint64, len(m)), dirty: true}
+	out := NewVersionVector()
 	for k, v := range m {
 		out.m[k] = v
 	}
